@@ -10,6 +10,7 @@ CONSTANTS
   InitAttG = {"s1", "s5"}
   InitOnMe = {}
   MeSessions = {}
+  SubSessions = {"s1", "s2", "s3"}
   LeaveSessions = {"s1", "s2"}
   DiscSessions = {"s1"}
   PubSessions = {"s1", "s2"}
